@@ -1,0 +1,12 @@
+//go:build !verif
+
+package mangos
+
+// Verification hooks are compiled out without the "verif" build tag.
+
+type verifMsgState struct{}
+
+func verifPreFree(*Message)     {}
+func verifRelease(*Message)     {}
+func verifUse(*Message, string) {}
+func verifNew(*Message, int)    {}
